@@ -830,6 +830,7 @@ func (w *wbuild) compareTwins(a, b *InvResult, req BuildReq, mA, mB *Machine) {
 
 // checkBuild compares one invocation with the reference model and updates the model.
 func (w *wbuild) checkBuild(res *InvResult, req BuildReq, opts InvOpts, cm *cacheModel, ext0 map[string]string) {
+	w.recordedNow = map[string]bool{}
 	s := w.s
 	u := w.U
 	report := func(prop, class, sig, detail string) {
@@ -1088,6 +1089,7 @@ func (w *wbuild) checkBuild(res *InvResult, req BuildReq, opts InvOpts, cm *cach
 					cm.strict[kS] = true
 					cm.loose[kL] = true
 					delete(cm.unc, kS)
+					w.recordedNow[kS] = true
 					if sp.NonHermetic {
 						e := ext0["epoch"]
 						if faulted || !opts.Remote {
